@@ -362,8 +362,14 @@ func (it DerItem) classify() string {
 		}
 		return "lenient"
 	}
-	if it.Class == 2 && !it.Prim && it.InTag == 0 && !it.InPrim && !it.LongLen && it.Trail == "" && validForStrTag(it.StrTag, it.Val) {
+	nonMinimal := it.LongLen && len(it.Val) < 256 // the 0x82 length form is the minimal one from 256 bytes on
+	if it.Class == 2 && !it.Prim && it.InTag == 0 && !it.InPrim && !nonMinimal && it.Trail == "" && validForStrTag(it.StrTag, it.Val) {
 		return "name"
+	}
+	if it.Class == 2 && !it.Prim && it.InTag == 0 && !it.InPrim && (nonMinimal || it.StrTag == 2 || it.StrTag == 4 || it.StrTag == 5 || it.StrTag == 16) {
+		// a receptor-name entry of the standard outer shape whose value is not a string at all (or not DER): the encoded
+		// ID cannot be read, so "exactly the encoded IDs" is impossible and only an error satisfies the statement
+		return "undecodable"
 	}
 	return "lenient"
 }
@@ -557,7 +563,7 @@ func execC20Der(b []byte) vx.Verdict {
 		anyName := false
 		for _, it := range s.Items {
 			c := it.classify()
-			if c == "lenient" {
+			if c == "lenient" || c == "undecodable" {
 				allStd = false
 			}
 			if c == "name" {
@@ -571,6 +577,11 @@ func execC20Der(b []byte) vx.Verdict {
 				return vx.Violation("read-back", "C20/standard-san-unreadable", "ReceptorNames failed on a standard subjectAltName %x: %v (items %s)", san, err, string(b))
 			}
 			return vx.OK(false, "der:error-on-nonstandard")
+		}
+		for _, it := range s.Items {
+			if it.classify() == "undecodable" {
+				return vx.Violation("read-back", "C20/undecodable-entry-skipped", "ReceptorNames returned %q without error although a receptor-name entry cannot be decoded (items %s, san %x)", got, string(b), san)
+			}
 		}
 		if !matchNames(s.Items, got) {
 			return vx.Violation("read-back", "C20/different-name", "ReceptorNames returned %q for items %s (san %x)", got, string(b), san)
